@@ -873,7 +873,7 @@ func Run(r *fw.Run) {
 				}
 				// the same call on the file as parsed (no Cleanup first), where that makes a difference: seeds with
 				// a block of no or one line
-				if msg == "" && smallBlock(sds[i]) {
+				if msg == "" && smallBlock(sds[i]) && (!r.Thorough() || i%3 == 0) { // thorough: every third such seed (time)
 					cr := c
 					cr.Raw = true
 					l.Execs++
